@@ -1,5 +1,6 @@
 import Frp.Driver.Proto
 import Frp.Props.C19Visitors
+import Frp.Props.C19Keeper
 import Frp.Engines.Client
 /-
   Driver engine "vmgr" (C19, visitors): replays the trace of harness/eng_vmgr.go (the real
@@ -8,7 +9,11 @@ import Frp.Engines.Client
   implementation's own answers.
 
   Every op of the harness ends after at least one complete pass of the real keep-alive loop, so the
-  reported state is one a further pass does not change.  Which of several waiting visitors got an
+  reported state is one a further pass does not change.  The keeper goroutine itself is followed on
+  Frp/Model/VisitorKeeper.lean (Once, idle / alive / exited): the model reports `nokeeper` when a list
+  with a visitor has been loaded, Close() has not been called and the goroutine is not alive — which
+  `C19.keeper_alive` excludes for the code as it is; an implementation that reports it has ended its
+  keeper, and `vSettledOn` then fails on the first visitor that waits for a tick.  Which of several waiting visitors got an
   address that became free is the implementation's choice (Go's map order): the engine starts the
   ones the implementation reports as started first (`tryStart` refuses those that cannot start),
   then completes the pass in name order; if the implementation's choice was a legal and complete
@@ -24,6 +29,8 @@ structure VmState where
   gens : List (Nat × Nat) := []   -- visitor stamp → generation under its name
   cnt : List (Nat × Nat) := []    -- name → number of visitor objects seen
   quiet : Bool := false           -- Close() has been called and no UpdateAll since
+  once : Bool := false            -- keepVisitorsRunningOnce has fired (VisitorKeeper.KM.once)
+  k : VisitorKeeper.K := .idle    -- the keeper goroutine (VisitorKeeper.KM.k)
 
 def vmPool : List Nat := [1, 2, 3, 4, 5]
 
@@ -47,7 +54,8 @@ def vmRender (st : VmState) : String :=
     s!"{v.cfg.name}.{((st.gens.find? (·.1 == v.id)).map (·.2)).getD 0}")))
   let busy := ",".intercalate ((vmPool.filter (busy st.m)).map toString)
   let held := ",".intercalate ((vmPool.filter st.m.squat.contains).map toString)
-  s!"cfg={cfg};run={run};busy={busy};held={held}" ++ (if st.quiet then ";closed" else "")
+  s!"cfg={cfg};run={run};busy={busy};held={held}" ++ (if st.quiet then ";closed" else "") ++
+    (if st.once && !st.m.closed && st.k != .alive then ";nokeeper" else "")
 
 def splitList (s : String) : List String := if s.isEmpty then [] else s.splitOn ","
 
@@ -75,7 +83,7 @@ def parseVObs' (s : String) : Option (C19.VObs × List (Nat × Nat) × List Nat)
   match s.splitOn ";" with
   | c :: r :: b :: h :: rest =>
     if !(c.startsWith "cfg=" && r.startsWith "run=" && b.startsWith "busy=" && h.startsWith "held=") then none
-    else if rest != [] && rest != ["closed"] then none else do
+    else if rest != [] && rest != ["closed"] && rest != ["nokeeper"] then none else do
     let cfg ← parseAll parseTriple (splitList (c.drop 4).toString)
     let run ← parseAll parseRunName (splitList (r.drop 4).toString)
     let gens ← parseAll parseRunGen (splitList (r.drop 4).toString)
@@ -128,7 +136,10 @@ def vmgrStep (st : VmState) (tok : List String) (impl : String) : VmState × Ver
   | ["reset"] => ({}, verdictOf "-" impl)
   | "vupd" :: cs =>
     match parseAll parseVmCfg cs with
-    | some cfgs => vmFinish st (activeUpdateAll st.m cfgs) cfgs "" impl false (some st.loaded)
+    | some cfgs =>
+      -- the Once and the goroutine: VisitorKeeper.upd
+      let ks := VisitorKeeper.upd { m := st.m, once := st.once, k := st.k } cfgs
+      vmFinish { st with once := ks.once, k := ks.k } ks.m cfgs "" impl false (some st.loaded)
     | none => (st, .bad "vupd")
   | ["squat", k] =>
     match k.toNat? with
@@ -143,7 +154,9 @@ def vmgrStep (st : VmState) (tok : List String) (impl : String) : VmState × Ver
       vmFinish st (step st.m (.free k)) st.loaded (if st.m.squat.contains k then "ok" else "notheld") impl st.quiet
     | none => (st, .bad "free")
   | ["tick"] => vmFinish st st.m st.loaded "" impl st.quiet
-  | ["close"] => vmFinish st (VisitorMgr.close st.m) st.loaded "" impl true
+  | ["close"] =>
+    let ks := VisitorKeeper.step { m := st.m, once := st.once, k := st.k } .close
+    vmFinish { st with k := ks.k } ks.m st.loaded "" impl true
   | ["closerace", k] =>
     -- Close() overtakes an iteration of the loop; address k is released in between (0: nothing is)
     match k.toNat? with
@@ -155,7 +168,8 @@ def vmgrStep (st : VmState) (tok : List String) (impl : String) : VmState × Ver
       -- of "free; pass; Close" — accepted when it is exactly that
       let a := vmFinish' st (step (VisitorMgr.close st.m) (.free k)) st.loaded head impl true
       let b := vmFinish' st (VisitorMgr.close (activePass (step st.m (.free k)) (sortNat (st.m.cfgs.map (·.name))))) st.loaded head impl true
-      if a.2.1 != impl && b.2.1 == impl then (b.1, b.2.2) else (a.1, a.2.2)
+      let kx : VisitorKeeper.K := match st.k with | .alive => .exited | k => k
+      if a.2.1 != impl && b.2.1 == impl then ({ b.1 with k := kx }, b.2.2) else ({ a.1 with k := kx }, a.2.2)
     | none => (st, .bad "closerace")
   | ["xfer", n] =>
     match n.toNat? with
